@@ -1,3 +1,52 @@
-From RV Require Import Val Syntax Dense.
-Theorem C04_placeholder : True. Proof. exact I. Qed.
-Print Assumptions C04_placeholder.
+(* C04 — dense-time offline robustness equals the dense-time STL semantics.
+
+   Full statement (decided by the correspondence check harness/c04.py against
+   the tick semantics DenseSem.rhoZ, for every generated specification and
+   signal set):
+       forall p W t, dstart W p <= t ->
+         den (evaluate p W) t = rhoZ W tend p t   /\  stamps non-decreasing
+         /\ first stamp = dstart W p.
+
+   Proved here, for all inputs (C04_partial: the merge that every binary
+   operator, comparison, since and until goes through; the sliding-window
+   algorithms of the bounded operators are covered by the correspondence
+   check only):
+   - C04_merge: on strictly increasing sample lists the 13-case Allen-relation
+     merge of intersection.py (model DenseMerge.isect, compared with
+     intersection() itself by the check) never reaches its 'Unexpected case'
+     branch, returns strictly increasing stamps, and its result denotes
+     exactly t |-> f (s1 t) (s2 t) on the common domain and is undefined
+     before it.
+   - C04_merge_starts_at_common_domain: the first stamp of the result is the
+     later of the two first stamps. *)
+From Coq Require Import List ZArith Lia.
+From RV Require Import Val Syntax Dense DenseMerge DenseMergeCorrect ExtZ.
+Import ListNotations.
+Local Open Scope Z_scope.
+
+Theorem C04_merge :
+  forall (VS : Val) (f : V -> V -> V) (s1 s2 : dsig),
+    dsorted s1 -> dsorted s2 ->
+    exists out, isect f s1 s2 = Some out /\ dsorted out /\
+      forall t, den_opt out t =
+                match den_opt s1 t, den_opt s2 t with
+                | Some a, Some b => Some (f a b)
+                | _, _ => None
+                end.
+Proof. exact (fun VS f s1 s2 H1 H2 => isect_correct f s1 s2 H1 H2). Qed.
+Print Assumptions C04_merge.
+
+Theorem C04_merge_starts_at_common_domain :
+  forall (VS : Val) (f : V -> V -> V) (s1 s2 out : dsig),
+    dsorted s1 -> dsorted s2 -> s1 <> [] -> s2 <> [] ->
+    isect f s1 s2 = Some out ->
+    out <> [] /\ start out = Z.max (start s1) (start s2).
+Proof. exact (fun VS f s1 s2 out => isect_start f s1 s2 out). Qed.
+Print Assumptions C04_merge_starts_at_common_domain.
+
+Example C04_nonvacuous :
+  let s1 : @dsig ExtZVal := [(0, Fin 3); (4, Fin 1); (9, Fin 5)] in
+  let s2 : @dsig ExtZVal := [(2, Fin 2); (4, Fin 2); (6, Fin 0)] in
+  dsorted s1 /\ dsorted s2 /\
+  isect vmin s1 s2 = Some [(2, Fin 2); (4, Fin 1); (6, Fin 0)].
+Proof. cbv zeta. repeat split; try lia. Qed.
